@@ -56,7 +56,7 @@ func IntKind(kind string, i int64) Val {
 }
 
 // IsNil reports the nil value.
-func (v Val) IsNil() bool { return v.K == "nil" || v.K == "" }
+func (v Val) IsNil() bool { return v.K == "nil" || v.K == "" || v.K == "nilptr" }
 
 // RefID returns the node id of a ref value.
 func (v Val) RefID() int { i, _ := strconv.Atoi(v.S); return i }
@@ -139,6 +139,10 @@ func (v Val) Go() interface{} {
 		return out
 	case "ref":
 		return NodeRef(v.RefID())
+	case "nilptr":
+		return (*int)(nil)
+	case "struct":
+		return struct{ A int }{1}
 	}
 	panic("hx.Val: unknown kind " + v.K)
 }
